@@ -1,9 +1,12 @@
 #!/bin/sh
-# run every check of the manifest in the given tier, one after the other; prints one line per check
+# usage: runall.sh [tier] [seed] ["C01 C02 ..."]
+# run every check of the manifest (or the given ones) in the given tier, one after the other; prints one line per check
 cd "$(dirname "$0")/.." || exit 2
 TIER=${1:-quick}
 SEED=${2:-0}
-for id in $(/venv/bin/python -c "import json;print(' '.join(c['property_id'] for c in json.load(open('MANIFEST.json'))['checks']))"); do
+IDS=${3:-}
+[ -n "$IDS" ] || IDS=$(/venv/bin/python -c "import json;print(' '.join(c['property_id'] for c in json.load(open('MANIFEST.json'))['checks']))")
+for id in $IDS; do
   s=$(date +%s)
   out=$(./check $id --tier $TIER --seed $SEED 2>&1)
   rc=$?
